@@ -74,6 +74,21 @@ impl<'a> AnyEnc<'a> {
             AnyEnc::Tiny(e) => e.encode_copy(d),
         }
     }
+    pub fn sink_copy(&mut self, d: &[u8]) {
+        match self {
+            AnyEnc::Prod(e) => owning_iovec::ZeroCopySink::append_copy(e, d),
+            AnyEnc::Tiny(e) => e.encode_copy(d),
+        }
+    }
+    pub fn sink_borrow(&mut self, d: &'a [u8]) {
+        match self {
+            AnyEnc::Prod(e) => {
+                let mut by_ref = &mut *e;
+                owning_iovec::ZeroCopySink::append_borrow(&mut by_ref, d)
+            }
+            AnyEnc::Tiny(e) => e.encode(d),
+        }
+    }
     pub fn encode_anchored(&mut self, d: AnchoredSlice) {
         match self {
             AnyEnc::Prod(e) => e.encode_anchored(d),
@@ -190,9 +205,16 @@ pub enum Method {
     AnchoredSplitHold,
     /// encode_read / decode_read through a scripted short-read reader
     Read,
+    /// through the ZeroCopySink impl of the production Encoder (append_copy);
+    /// decoders and tiny-limit encoders use the *_copy method
+    SinkCopy,
+    /// ZeroCopySink::append_borrow, reached through the blanket `&mut T` impl
+    SinkBorrow,
 }
 
-pub const METHODS: [Method; 7] = [
+pub const METHODS: [Method; 9] = [
+    Method::SinkCopy,
+    Method::SinkBorrow,
     Method::Borrow,
     Method::Copy,
     Method::Anchored,
@@ -291,6 +313,7 @@ pub struct SideObs {
     pub pokes: u64,
     pub expose: ExposeStats,
     pub reads_short: u64,
+    pub failed_reads_retried: u64,
 }
 
 /// Failures of a call's own report (return value of consume / advance_slices
@@ -541,6 +564,18 @@ pub fn run_encode(params: Params, input: &[u8], plan: &[PieceStep], owned: &Owne
     Ok(out)
 }
 
+/// A reader that fails before delivering anything: a hard error, or only
+/// interruptions (the attempt limit runs out).
+fn transient_failure<'d>(piece: &'d [u8], aux: u64) -> ScriptedReader<'d> {
+    use crate::reader::Step;
+    let script = match (aux >> 48) % 3 {
+        0 => vec![Step::Fail(std::io::ErrorKind::WouldBlock)],
+        1 => vec![Step::Interrupted, Step::Fail(std::io::ErrorKind::TimedOut)],
+        _ => vec![Step::Interrupted, Step::Interrupted, Step::Interrupted, Step::Fail(std::io::ErrorKind::WouldBlock)],
+    };
+    ScriptedReader::new(piece, script, Tail::Eof)
+}
+
 fn scripted<'d>(piece: &'d [u8], aux: u64) -> ScriptedReader<'d> {
     let mut rng = Rng::new(aux);
     let n = rng.range(0, 6);
@@ -564,6 +599,8 @@ fn feed_encoder<'a>(enc: &mut AnyEnc<'a>, piece: &'a [u8], step: &PieceStep, obs
     match step.method {
         Method::Borrow => enc.encode(piece),
         Method::Copy => enc.encode_copy(piece),
+        Method::SinkCopy => enc.sink_copy(piece),
+        Method::SinkBorrow => enc.sink_borrow(piece),
         Method::Anchored => {
             let a = read_anchored_enc(enc, piece, step.aux, obs)?;
             expose::check_one(a.slice(), owned, &mut obs.expose).map_err(|e| fail(&["C05"], "expose-anchored", e))?;
@@ -601,6 +638,16 @@ fn feed_encoder<'a>(enc: &mut AnyEnc<'a>, piece: &'a [u8], step: &PieceStep, obs
             }
         }
         Method::Read => {
+            if (step.aux >> 40) % 4 == 0 {
+                // A transient failure first (nothing delivered): the caller
+                // retries on the same encoder.
+                let mut failing = transient_failure(piece, step.aux);
+                let att = NonZeroUsize::new(1 + (step.aux >> 44) as usize % 3).unwrap();
+                match enc.encode_read(&mut failing, piece.len().max(1), att) {
+                    Ok(0) | Err(_) => obs.failed_reads_retried += 1,
+                    Ok(n) => return Err(fail(&["C17"], "encode_read-count", format!("encode_read returned {} from a reader that delivered nothing", n))),
+                }
+            }
             let mut r = scripted(piece, step.aux);
             let extra = (step.aux >> 24) as usize % 3;
             let n = enc
@@ -655,8 +702,8 @@ fn decode_segment<'a>(
         let piece = &enc[start..step.end];
         start = step.end;
         let r: Result<(), ()> = match step.method {
-            Method::Borrow => dec.decode(piece).map_err(|_| ()),
-            Method::Copy => dec.decode_copy(piece).map_err(|_| ()),
+            Method::Borrow | Method::SinkBorrow => dec.decode(piece).map_err(|_| ()),
+            Method::Copy | Method::SinkCopy => dec.decode_copy(piece).map_err(|_| ()),
             Method::Anchored => {
                 let a = read_anchored_dec(dec, piece, step.aux, obs)?;
                 expose::check_one(a.slice(), owned, &mut obs.expose).map_err(|e| fail(&["C05"], "expose-anchored", e))?;
@@ -693,6 +740,16 @@ fn decode_segment<'a>(
                 }
             }
             Method::Read => {
+                if (step.aux >> 40) % 4 == 0 {
+                    // A transient failure first (nothing delivered): the
+                    // caller retries on the same decoder.
+                    let mut failing = transient_failure(piece, step.aux);
+                    let att = NonZeroUsize::new(1 + (step.aux >> 44) as usize % 3).unwrap();
+                    match dec.decode_read(&mut failing, piece.len().max(1), att) {
+                        Ok(0) | Err(_) => obs.failed_reads_retried += 1,
+                        Ok(n) => return Err(fail(&["C17"], "decode_read-count", format!("decode_read returned {} from a reader that delivered nothing", n))),
+                    }
+                }
                 let mut r = scripted(piece, step.aux);
                 let extra = (step.aux >> 24) as usize % 3;
                 match dec.decode_read(&mut r, piece.len() + extra, MAX_ATTEMPTS) {
@@ -962,6 +1019,7 @@ fn round_trip(ctx: &mut Ctx, kind: &str, index: u64, case: &RoundTripCase<'_>) -
     let mut sig_bits = (0u64, 0u64, 0u64);
     let mut soft: Soft = Vec::new();
     let mut partial_decodes = 0u64;
+    let mut retried_reads = 0u64;
     let res = catch(|| -> Result<(usize, usize), Fail> {
         let enc_out = run_encode(params, input, &case.enc_plan, &owned, case.heavy, &mut soft)?;
         let e = &enc_out.total;
@@ -1036,6 +1094,7 @@ fn round_trip(ctx: &mut Ctx, kind: &str, index: u64, case: &RoundTripCase<'_>) -
             }
         }
         sig_bits.2 = pb;
+        retried_reads = enc_out.obs.failed_reads_retried + dec_out.obs.failed_reads_retried;
         // C09, decoder side: abandon a decoder part-way (Decoder::take_iovec
         // instead of finish): what was drained plus what it still holds must
         // be a prefix of the message.
@@ -1073,6 +1132,7 @@ fn round_trip(ctx: &mut Ctx, kind: &str, index: u64, case: &RoundTripCase<'_>) -
     }
     ctx.ops += case.enc_plan.len() as u64 + dec_plan_used.as_ref().map(|d| d.len()).unwrap_or(0) as u64;
     ctx.feature_n("codec.dec.abandoned_midway_take_iovec_is_prefix", partial_decodes);
+    ctx.feature_n("codec.reads_retried_after_a_transient_failure", retried_reads);
 
     let mk_case = |dec: Option<&[PieceStep]>| case_json(kind, index, params, input, &case.enc_plan, dec);
     let had_soft = !soft.is_empty();
@@ -1906,7 +1966,7 @@ struct StreamSpec {
     dist: PieceDist,
     policy: DrainPolicy,
     pipeline: bool,
-    method_mix: u8, // 0 borrow, 1 copy, 2 read, 3 mixed
+    method_mix: u8, // 0 borrow, 1 copy, 2 read, 3 mixed, 4 anchored slices read through a foreign arena, 5 mixed incl. foreign
 }
 
 fn stream_json(index: u64, s: &StreamSpec) -> Json {
@@ -1932,9 +1992,11 @@ fn run_one_stream(ctx: &mut Ctx, idx: u64, spec: &StreamSpec, rng: &mut Rng) -> 
     let mut max_lag = 0usize;
     let mut max_live = 0usize;
     let mut calls = 0usize;
+    let mut foreign_anchored = 0u64;
     {
         let mut enc = hcobs::Encoder::new();
         let mut dec = hcobs::Decoder::new();
+        let mut feeder = ByteArena::new();
         let mut enc_off = 0usize; // bytes of `expected` drained so far
         let mut dec_off = 0usize; // bytes of `input` drained from the decoder so far
         let mut pos = 0usize;
@@ -1942,10 +2004,26 @@ fn run_one_stream(ctx: &mut Ctx, idx: u64, spec: &StreamSpec, rng: &mut Rng) -> 
         while pos < input.len() {
             let n = next_piece(rng, spec.dist).min(input.len() - pos);
             let piece = &input[pos..pos + n];
-            let m = if spec.method_mix == 3 { rng.below(3) as u8 } else { spec.method_mix };
+            let m = match spec.method_mix {
+                3 => rng.below(3) as u8,
+                4 => 3,
+                5 => rng.below(4) as u8,
+                x => x,
+            };
             match m {
                 0 => enc.encode(piece),
                 1 => enc.encode_copy(piece),
+                3 => {
+                    // read into an arena that is not the encoder's, then fed anchored
+                    let a = feeder
+                        .read_n(piece, n, MAX_ATTEMPTS)
+                        .map_err(|e| fail(&["C17"], "read_n-err", e.to_string()))?;
+                    if a.slice().len() != n {
+                        return Err(fail(&["C17"], "read_n-count", format!("read_n returned {} of {}", a.slice().len(), n)));
+                    }
+                    enc.encode_anchored(a);
+                    foreign_anchored += 1;
+                }
                 _ => {
                     let mut r = ScriptedReader::new(piece, Vec::new(), Tail::ServeAll);
                     r.log_calls = false;
@@ -1993,8 +2071,17 @@ fn run_one_stream(ctx: &mut Ctx, idx: u64, spec: &StreamSpec, rng: &mut Rng) -> 
                 drain_all(&mut cons, rng, spec.policy != DrainPolicy::AllEveryCall, &mut sink)?;
             }
             if spec.pipeline && !pending_for_decoder.is_empty() {
-                dec.decode_copy(&pending_for_decoder)
-                    .map_err(|e| fail(&["C01", "C07"], "stream-decode-reject", format!("decoder rejected the drained stream: {}", e)))?;
+                if spec.method_mix >= 4 && calls % 2 == 0 && pending_for_decoder.len() <= (1 << 20) {
+                    let a = feeder
+                        .read_n(&pending_for_decoder[..], pending_for_decoder.len(), MAX_ATTEMPTS)
+                        .map_err(|e| fail(&["C17"], "read_n-err", e.to_string()))?;
+                    dec.decode_anchored(a)
+                        .map_err(|e| fail(&["C01", "C07"], "stream-decode-reject", format!("decoder rejected the drained stream: {}", e)))?;
+                    foreign_anchored += 1;
+                } else {
+                    dec.decode_copy(&pending_for_decoder)
+                        .map_err(|e| fail(&["C01", "C07"], "stream-decode-reject", format!("decoder rejected the drained stream: {}", e)))?;
+                }
                 pending_for_decoder.clear();
                 let mut dcons = dec.consumer();
                 let dtotal = dcons.total_size();
@@ -2036,6 +2123,7 @@ fn run_one_stream(ctx: &mut Ctx, idx: u64, spec: &StreamSpec, rng: &mut Rng) -> 
         return Err(fail(&["C10"], "leak-after-drop", format!("live arena chunks/bytes {}/{} after the stream, {}/{} before", c, b, base_chunks, base_bytes)));
     }
     ctx.ops += calls as u64;
+    ctx.feature_n("stream.anchored_slices_read_through_a_foreign_arena", foreign_anchored);
     let _ = idx;
     Ok((max_lag, max_live - base_bytes.min(max_live), calls))
 }
@@ -2080,7 +2168,7 @@ pub fn run_stream(ctx: &mut Ctx) {
             dist,
             policy,
             pipeline: rng.chance(1, 2),
-            method_mix: if dist == PieceDist::Huge { rng.below(2) as u8 } else { rng.below(4) as u8 },
+            method_mix: if dist == PieceDist::Huge { rng.below(2) as u8 } else { rng.below(6) as u8 },
         };
         ctx.begin_case(idx, || stream_json(idx, &spec));
         let res = catch(|| run_one_stream(ctx, idx, &spec, &mut rng));
